@@ -101,7 +101,9 @@ def builtin_transpose(a, a_cols):
 
     res_mat = np.transpose(a_mat)
 
-    return res_mat.reshape(-1, order="F")
+    # (A copy: for a single row or column, numpy would hand out a view of the
+    # argument, and an element assignment to the result would change *a*.)
+    return np.array(res_mat.reshape(-1, order="F"))
 
 
 def builtin_linear_solve(a, b, a_cols, b_cols):
